@@ -36,6 +36,11 @@ type Opts struct {
 	SrvOpts   []server.ServerOpt
 	// VRFs, when set, replaces the default non-default instances {VRF-A, VRF-B}.
 	VRFs []string
+	// Bystander > 0: before the session, another session negotiates the same parameters and
+	// announces the same election id (the session announces it afterwards and is therefore the
+	// primary); the bystander never sends an operation and its stream is half-closed immediately
+	// before the request that contains step Bystander. Nothing may change for the session.
+	Bystander int
 	// LateVRF > 0: the last non-default instance does not exist at first; it is created with
 	// Server.AddNetworkInstance immediately before the request that contains step LateVRF
 	// (0-based index into the history; after the harness's reads of all instances that follow
@@ -180,6 +185,26 @@ func RunHistory(h hgen.History, o Opts) (*ev.Verdict, *l1.Trace) {
 	if o.Elec != nil {
 		elec = *o.Elec
 	}
+	var by *drive.Session
+	if o.Bystander > 0 {
+		by = s.Open()
+		by.Send(drive.StdParams(o.FIB))
+		by.Send(&spb.ModifyRequest{ElectionId: elec.Proto()})
+		if rs, ended, hg := by.Barrier(); hg != nil || ended || len(rs) != 2 {
+			if hg != nil {
+				HangFinding(v, P, hg)
+			} else {
+				v.Fail(P+"/setup", "bystander session setup: ended=%v err=%v responses=%v", ended, by.Err(), rs)
+			}
+			return v, tr
+		}
+		v.Class("bystander-session-with-the-same-election-id")
+		defer func() {
+			if by != nil {
+				by.Close()
+			}
+		}()
+	}
 	x := s.Open()
 	defer func() {
 		if hg := x.Close(); hg != nil && len(v.Findings) == 0 {
@@ -228,6 +253,13 @@ func RunHistory(h hgen.History, o Opts) (*ev.Verdict, *l1.Trace) {
 	i := 0
 	nreq := 0
 	for i < len(h.Steps) {
+		if by != nil && i >= o.Bystander {
+			if hg := by.Close(); hg != nil {
+				HangFinding(v, P, hg)
+				return v, tr
+			}
+			by = nil
+		}
 		if late != "" && i >= o.LateVRF {
 			if err := s.S.AddNetworkInstance(late); err != nil {
 				v.Fail(P+"/add-network-instance", "before step %d: AddNetworkInstance(%q): %v", i, late, err)
